@@ -78,6 +78,29 @@ def _kwargs_mrts_resolution(st: ast.stmt, name: str, wm: WrapperModel, fi: FuncI
     return None
 
 
+def _kwargs_mrts_resolution_at(f: FuncInfo, k: int, name: str, wm: WrapperModel) -> Optional[ast.Call]:
+    """Statement k of f's body replaces 'auto' in kwargs: the conditional form above, or the unconditional
+    `kwargs['MRTS'] = <name>` after `<name>` itself went through `if isinstance(<name>, str): <name> = default_thresh(..)`
+    (the value stored is then the resolved threshold on every path)."""
+    st = f.node.body[k]
+    d = _kwargs_mrts_resolution(st, name, wm, f)
+    if d is not None:
+        return d
+    if isinstance(st, ast.Assign) and len(st.targets) == 1 and isinstance(st.targets[0], ast.Subscript) \
+            and isinstance(st.targets[0].slice, ast.Constant) and st.targets[0].slice.value == 'MRTS' \
+            and isinstance(st.targets[0].value, ast.Name) and f.node.args.kwarg is not None \
+            and st.targets[0].value.id == f.node.args.kwarg.arg and isinstance(st.value, ast.Name) and st.value.id == name:
+        res = [(_is_mrts_resolution(s2, name, wm, f), k2) for k2, s2 in enumerate(f.node.body[:k])]
+        res = [(r, k2) for r, k2 in res if r is not None]
+        if res:
+            # no other binding of the name between the resolution and the store
+            r, k2 = res[-1]
+            if not any(isinstance(n, ast.Name) and n.id == name and isinstance(n.ctx, ast.Store)
+                       for s2 in f.node.body[k2 + 1:k] for n in ast.walk(s2)):
+                return r
+    return None
+
+
 def _param_index(k: FuncInfo, name: str) -> Optional[int]:
     ps = [a.arg for a in k.node.args.args]
     return ps.index(name) if name in ps else None
@@ -117,6 +140,25 @@ def _train_locals(f: FuncInfo, tps: Set[str]) -> Set[str]:
                 isinstance(n.value, ast.Subscript) and isinstance(n.value.value, ast.Name) and n.value.value.id in tps:
             out.add(n.targets[0].id)       # st_i = spike_trains[...]
     return out
+
+
+def _none_defaulted(a: ast.AST) -> Optional[str]:
+    """`0.0 if X is None else X` / `X if X is not None else 0.0`: the name X, else None."""
+    if not isinstance(a, ast.IfExp) or not isinstance(a.test, ast.Compare) or len(a.test.ops) != 1 \
+            or not isinstance(a.test.left, ast.Name) or not isinstance(a.test.comparators[0], ast.Constant) \
+            or a.test.comparators[0].value is not None:
+        return None
+    x = a.test.left.id
+    if isinstance(a.test.ops[0], ast.Is):
+        zero, same = a.body, a.orelse
+    elif isinstance(a.test.ops[0], ast.IsNot):
+        zero, same = a.orelse, a.body
+    else:
+        return None
+    if isinstance(zero, ast.Constant) and zero.value in (0, 0.0) and not isinstance(zero.value, bool) \
+            and isinstance(same, ast.Name) and same.id == x:
+        return x
+    return None
 
 
 def r_kernel_call_typestates(ctx, rules=('R15.1', 'R16.2', 'R18.4'), only_funcs: Optional[Set[str]] = None) -> List[Ob]:
@@ -170,7 +212,7 @@ def r_kernel_call_typestates(ctx, rules=('R15.1', 'R16.2', 'R18.4'), only_funcs:
                 # ---- max_tau must be a number
                 if role == 'max_tau' and r_tau:
                     t = f"{f.name}: max_tau argument of kernel `{kname}` has passed `if max_tau is None: max_tau = 0.0`"
-                    good = False
+                    good = _none_defaulted(a) is not None       # `0.0 if max_tau is None else max_tau` at the call
                     if isinstance(a, ast.Name):
                         for n in ast.walk(f.node):
                             if isinstance(n, ast.If) and isinstance(n.test, ast.Compare) and isinstance(n.test.left, ast.Name) \
@@ -237,7 +279,7 @@ def r_kernel_call_typestates(ctx, rules=('R15.1', 'R16.2', 'R18.4'), only_funcs:
         tps = wm.train_params.get(f.qual, set())
         mrts_local = next((k_ for k_, v_ in _keyword_locals(wm, f).items() if v_ == 'MRTS'), 'MRTS')
         for k, st in enumerate(f.node.body):
-            dcall = _kwargs_mrts_resolution(st, mrts_local, wm, f)
+            dcall = _kwargs_mrts_resolution_at(f, k, mrts_local, wm)
             if dcall is None:
                 continue
             roots = set()
@@ -267,7 +309,7 @@ def r_kernel_call_typestates(ctx, rules=('R15.1', 'R16.2', 'R18.4'), only_funcs:
         res_idx = None
         mrts_local = next((k_ for k_, v_ in _keyword_locals(wm, f).items() if v_ == 'MRTS'), 'MRTS')
         for k, st in enumerate(f.node.body):
-            if _kwargs_mrts_resolution(st, mrts_local, wm, f) is not None:
+            if _kwargs_mrts_resolution_at(f, k, mrts_local, wm) is not None:
                 res_idx = k
         # calls (also inside nested helpers such as divide_and_conquer) that pass elements of a train list and **kwargs
         nodes = [f.node] + [n for n in ast.walk(f.node) if isinstance(n, ast.FunctionDef) and n is not f.node]
@@ -306,6 +348,9 @@ def _norm_arg(a: ast.AST, ren: Dict[str, str]) -> str:
     class R(ast.NodeTransformer):
         def visit_Name(self, n):
             return ast.copy_location(ast.Name(id=ren.get(n.id, n.id), ctx=n.ctx), n)
+    x = _none_defaulted(a)
+    if x is not None:
+        a = ast.Name(id=x, ctx=ast.Load())      # `0.0 if X is None else X`: the role is X (R16.2 decides the conversion)
     a2 = R().visit(ast.parse(ast.unparse(a), mode='eval').body)
     return ast.unparse(a2)
 
@@ -407,6 +452,8 @@ def r05_1_route_identity(ctx, rule: str = 'R05.1') -> List[Ob]:
                  f"`{tname}` the profile function of the same measure")
             args_ok = len(inner.args) >= 2 and [ast.unparse(a) for a in inner.args[:2]] == tps_list[:2]
             ival_ok = len(n.args) == 1 and isinstance(n.args[0], ast.Name) and n.args[0].id == 'interval'
+            if not n.args and not n.keywords and _interval_is_none_at(f, n) and _method_default_none(wm, n.func.attr):
+                ival_ok = True              # `.integral()` is `.integral(None)`, and interval is None on this path
             # settings: **kwargs forwarded, or MRTS passed explicitly; max_tau (if a parameter) forwarded
             has_kwargs = any(k.arg is None for k in inner.keywords)
             kwnames = {k.arg for k in inner.keywords if k.arg}
@@ -426,6 +473,57 @@ def r05_1_route_identity(ctx, rule: str = 'R05.1') -> List[Ob]:
         if not routes and fam.single_site is not None:
             obs.append(info(rule, f"{f.name}: fallback does not go through avrg/integral (per-spike route)", f.loc()))
     return obs
+
+
+def _method_default_none(wm: WrapperModel, meth: str) -> bool:
+    """every method of that name in the package takes (self, interval=None)"""
+    found = 0
+    for m in wm.repo.modules.values():
+        for qual, fi in m.functions.items():
+            if '.' in qual and qual.rsplit('.', 1)[1] == meth:
+                a = fi.node.args
+                found += 1
+                if len(a.args) != 2 or a.args[1].arg != 'interval' or len(a.defaults) != 1 \
+                        or not (isinstance(a.defaults[0], ast.Constant) and a.defaults[0].value is None):
+                    return False
+    return found > 0
+
+
+def _interval_is_none_at(f: FuncInfo, node: ast.AST) -> bool:
+    """`interval` is a parameter that is never re-bound, and `node` lies either after a top-level
+    `if interval is not None: raise/return` or inside the body of an `if interval is None:`."""
+    if 'interval' not in [a.arg for a in f.node.args.args + f.node.args.kwonlyargs]:
+        return False
+    if any(isinstance(x, ast.Name) and x.id == 'interval' and isinstance(x.ctx, ast.Store) for x in ast.walk(f.node)):
+        return False
+
+    def is_test(t, op):
+        return isinstance(t, ast.Compare) and len(t.ops) == 1 and isinstance(t.ops[0], op) and isinstance(t.left, ast.Name) \
+            and t.left.id == 'interval' and isinstance(t.comparators[0], ast.Constant) and t.comparators[0].value is None
+
+    def inside(block, known) -> bool:
+        for st in block:
+            if any(x is node for x in ast.walk(st)):
+                if known and not isinstance(st, (ast.If, ast.Try, ast.For, ast.While, ast.With)):
+                    return True
+                if isinstance(st, ast.If):
+                    if any(x is node for x in ast.walk(st.test)):
+                        return known
+                    in_body = any(x is node for b in st.body for x in ast.walk(b))
+                    k2 = known or (is_test(st.test, ast.Is) if in_body else is_test(st.test, ast.IsNot))
+                    return inside(st.body if in_body else st.orelse, k2)
+                if isinstance(st, (ast.FunctionDef, ast.ClassDef)):
+                    return False
+                for b in ([st.body, st.orelse, st.finalbody] + [h.body for h in st.handlers]) if isinstance(st, ast.Try) \
+                        else [getattr(st, 'body', []), getattr(st, 'orelse', [])]:
+                    if any(x is node for s2 in b for x in ast.walk(s2)):
+                        return inside(b, known)
+                return known
+            if isinstance(st, ast.If) and not st.orelse and is_test(st.test, ast.IsNot) and st.body \
+                    and isinstance(st.body[-1], (ast.Raise, ast.Return)):
+                known = True
+        return False
+    return inside(f.node.body, False)
 
 
 def _reaches(wm: WrapperModel, src: FuncInfo, dst: FuncInfo, depth: int = 0) -> bool:
